@@ -33,7 +33,23 @@ def run_lemma(eng, p):
 
 
 def contracts(tier):
-    return strategies.all_contracts(tier) + [
+    from . import c09, env
+    A9 = [env.ASSUME_OPTIONS]
+    acceptance = [
+        # the candidate is accepted only under the documented comparison,
+        # and is checked in a process-private file (mechanisms of C01)
+        Contract('C01/matches_golden', ['ddsmt.checker.matches_golden'],
+                 lambda e, p: c09.run_matches_golden(e, p, 'C01'),
+                 setup=c09.setup, assumptions=A9,
+                 replay=c09.replay_matches_golden),
+        Contract('C01/check', ['ddsmt.checker.check'],
+                 lambda e, p: c09.run_check(e, p, 'C01'), setup=c09.setup,
+                 assumptions=A9, replay=c09.replay_check),
+        Contract('C01/get_tmp_filename', ['ddsmt.tmpfiles.get_tmp_filename'],
+                 lambda e, p: c09.run_tmpname(e, p, 'C01'),
+                 setup=c09.setup_tmp, assumptions=A9),
+    ]
+    return strategies.all_contracts(tier) + acceptance + [
         Contract('C01/lemma', [], run_lemma,
                  assumptions=['the command is deterministic and its '
                               'behaviour depends on the token sequence only '
